@@ -742,7 +742,11 @@ func cmdHistory(seed int64, n int, out, replay, tier string) {
 			cs = append(cs, histCase(in, tag, fmt.Sprintf("pver%d", in.Cfgs[0].PVer)))
 		}
 	}
-	if err := writeCasesSharded(out, "history", seed, histHeader, "hist_case", "hist_eval", cs, 12); err != nil {
+	shard := 12
+	if tier == "thorough" {
+		shard = 4 // long histories: a shard of 12 needs more than 5 GB inside coqc
+	}
+	if err := writeCasesSharded(out, "history", seed, histHeader, "hist_case", "hist_eval", cs, shard); err != nil {
 		fatal(err)
 	}
 }
